@@ -40,6 +40,7 @@ var Texts = []struct{ Class, Text string }{
 	{"text-lone-cr", "a\rb\r\nc\n"},
 	{"text-utf8", "héllo wörld ✓\n日本語\n"},
 	{"text-long-line", strings.Repeat("x", 20000) + "\n"},
+	{"text-line-over-64KiB", "first\n" + strings.Repeat("z", 70000) + "\nlast\n"},
 }
 
 // Shapes: canonical (a two-line LF text) first. quick: every text class, empty
